@@ -1,30 +1,38 @@
 #!/bin/bash
 # Build everything the registered checks need, offline, from files on disk only.
-set -e
+# Best effort per property: a property whose closure does not build is reported here and again (as a
+# broken obligation) by its own check, which always rebuilds what it needs; it never blocks the others.
 HERE="$(cd "$(dirname "$0")" && pwd)"
 cd "$HERE"
 export PYTHONPATH="${VERIF_REPO:-/repo}:$HERE" AIOHTTP_NO_EXTENSIONS=1 PYTHONHASHSEED=0 PYTHONDONTWRITEBYTECODE=1
 /venv/bin/python - <<'PY'
-import json, sys, os
+import json, sys, os, importlib, time
 sys.path.insert(0, os.getcwd())
 from harness.common import framework as fw
 from translator import gen
+t0 = time.time()
 r = gen.regenerate()
 for k, v in r.items():
-    print("translator", k, "ok" if v["ok"] else "FAIL " + v["error"])
+    print("translator", k, "ok" if v["ok"] else "FAIL " + v["error"], flush=True)
 m = json.load(open("MANIFEST.json"))
 props = sorted({c["property_id"] for c in m["checks"]})
-targets = [f"Props/{p}.vo" for p in props if os.path.exists(f"coq/Props/{p}.v")]
-ok, log, dt = fw.coq_make(targets, timeout=3400)
-print(log[-3000:])
-print(f"coq build of {len(targets)} property files: {'ok' if ok else 'FAILED'} in {dt:.0f}s")
-bad = 0 if ok else 1
-import importlib
+built, failed = [], []
 for p in props:
-    mod = importlib.import_module(f"harness.{p.lower()}")
-    if hasattr(mod, "build_model"):
-        okm, msg = mod.build_model()
-        print(p, "model runner:", "ok" if okm else "FAILED\n" + msg[-2000:])
-        bad |= (not okm)
-sys.exit(bad)
+    if not os.path.exists(f"coq/Props/{p}.v"):
+        failed.append(p); print(p, "has no coq/Props file", flush=True); continue
+    ok, log, dt = fw.coq_make([f"Props/{p}.vo"], timeout=900)
+    print(f"coq closure of Props/{p}.v: {'ok' if ok else 'FAILED'} in {dt:.0f}s", flush=True)
+    if not ok:
+        print(log[-1500:], flush=True)
+    (built if ok else failed).append(p)
+for p in props:
+    try:
+        mod = importlib.import_module(f"harness.{p.lower()}")
+        if hasattr(mod, "build_model"):
+            okm, msg = mod.build_model()
+            print(p, "model runner:", "ok" if okm else "FAILED\n" + str(msg)[-1500:], flush=True)
+    except Exception as e:  # noqa
+        print(p, "harness import/build failed:", repr(e), flush=True)
+print(f"setup: {len(built)}/{len(props)} property closures built in {time.time()-t0:.0f}s; failed: {failed}", flush=True)
+sys.exit(0 if built else 1)
 PY
